@@ -138,7 +138,8 @@ def _optset():
 
 def _strategy(n):
     def f():
-        return st.tuples(gp.programs(), st.lists(_optset(), min_size=n, max_size=n)).map(
+        return st.tuples(st.one_of(gp.programs(), gp.programs(evidence_bias=True)),
+                         st.lists(_optset(), min_size=n, max_size=n)).map(
             lambda t: {"prog": t[0], "optsets": t[1]})
     return f
 
